@@ -16,7 +16,8 @@ type ImportSpec struct {
 	To    int    `json:"to"`
 	Spell string `json:"spell"` // text after "import "
 	As    string `json:"as,omitempty"`
-	Ver   string `json:"ver,omitempty"` // explicit version in the spelling ("" = none)
+	Ver   string `json:"ver,omitempty"`  // explicit version in the spelling ("" = none)
+	Mode  string `json:"mode,omitempty"` // import mode hint after the name ("~swagger"; "" = none)
 }
 
 // FileSpec is one file of the workload.
@@ -387,6 +388,9 @@ func spell(r *core.Rand, w *Workload, i, j int) ImportSpec {
 	is := ImportSpec{To: j}
 	if t.Kind != "sysl" {
 		is.As = foreignAs(j)
+		if (t.Kind == "swagger" || t.Kind == "openapi3") && (w.Seed+uint64(i+j))%2 == 0 {
+			is.Mode = t.Kind // the optional hint after the name: import x.yaml as X ~swagger
+		}
 	}
 	stripExt := func(s string) string {
 		if t.Kind == "sysl" && r.Chance(0.5) {
@@ -606,6 +610,9 @@ paths:
 		b.WriteString("import" + sep + im.Spell)
 		if im.As != "" {
 			b.WriteString(" as " + im.As)
+		}
+		if im.Mode != "" {
+			b.WriteString(" ~" + im.Mode)
 		}
 		b.WriteString("\n")
 	}
